@@ -852,6 +852,7 @@ let () =
   regl "net" op_net orc_net;
   reg "item" op_item orc_item;
   reg "ui" op_ui (orc_equal op_ui);
+  reg "uihook" (fun _ -> []) (fun _ impl -> match impl with _ :: _ :: st :: _ -> [("every_key_processed", st = 0)] | _ -> []);
   reg "uistress" (fun _ -> []) (fun _ impl -> match impl with u :: o :: st :: _ -> [("frames_under_lock", u = 0); ("frames_one_at_a_time", o = 0); ("every_key_processed", st = 0)] | _ -> []);
   reg "rendernm" (fun _ -> []) no_oracle;
   regl "objrender" op_objrender orc_objrender;
